@@ -17,6 +17,10 @@ func genLease(c *Ctx) error {
 	if c.Tier == "thorough" {
 		nHist = 140
 	}
+	directedQueuedImport(c)
+	if c.Arg == "queued-import" {
+		return nil
+	}
 	directedFailedHandoff(c)
 	directedClusterIDFault(c)
 	directedRenewalOutage(c)
@@ -316,5 +320,94 @@ func directedFailedHandoff(c *Ctx) {
 		do("events")
 		c.Nontrivial("failed-handoff-" + end + mode)
 		cs.End()
+	}
+}
+
+// directedQueuedImport: an import request (POST /import) arrives on the primary while an
+// application connection holds a lock, so it waits for the write lock; the node then loses the
+// primary role (manual demotion, the service forgetting the lease, renewals failing for a full
+// TTL) and only afterwards does the application let go.  The request must be refused and the
+// node's position, image and log stay what they were.  Control: without the loss of the role the
+// same request is performed once the lock is free.
+func directedQueuedImport(c *Ctx) {
+	r := c.Rng
+	for _, variant := range []string{"control", "demote", "expire", "outage", "demote consul", "control consul"} {
+		mode := ""
+		if strings.HasSuffix(variant, " consul") {
+			mode, variant = " consul", strings.TrimSuffix(variant, " consul")
+		}
+		for _, held := range []string{"SHARED", "RESERVED"} {
+			cs := c.Begin()
+			do := func(op string) string { c.Count("op." + strings.Fields(op)[0]); return cs.Do(op) }
+			obs := func(what string) {
+				if out := do("quiet"); out != "ok" {
+					c.Fail("queued-import scenario (" + variant + mode + ", " + what + "): a node acts as primary without holding the lease (or the reverse): " + out)
+				}
+				do("roles")
+				do("events")
+				do("n 0 state")
+				do("n 0 ltx")
+			}
+			do("cluster 2" + mode)
+			if variant == "outage" {
+				do("lease-ttl mid")
+			}
+			do("allow 0")
+			do("up 0")
+			do("up 1")
+			obs("node 0 primary")
+			v := newVPrimary(r, 512)
+			v.commit(r.Range(1, 3), map[int]bool{})
+			if out := do("n 0 import " + v.tok0()); out != "ok" {
+				c.Fail("queued-import scenario: the primary refused the first import: " + out)
+			}
+			do("sync")
+			obs("seeded")
+			// an application connection on node 0 is inside a transaction
+			do("n 0 rlock 7 PENDING")
+			do("n 0 rlock 7 SHARED")
+			do("n 0 unlock 7 PENDING")
+			if held == "RESERVED" {
+				do("n 0 lock 7 RESERVED")
+			}
+			w := newVPrimary(r, 512)
+			w.commit(r.Range(2, 4), map[int]bool{})
+			do("import-bg 0 " + w.tok0())
+			switch variant {
+			case "demote":
+				do("allow -1")
+				do("demote-nowait 0")
+			case "expire":
+				do("allow -1")
+				do("expire")
+			case "outage":
+				do("allow -1")
+				do("renewerr on")
+			}
+			obs("request queued")
+			// the application's transaction ends
+			if held == "RESERVED" {
+				do("n 0 unlock 7 RESERVED")
+			}
+			do("n 0 unlock 7 SHARED")
+			out := do("import-join 0")
+			if variant == "control" && !strings.HasPrefix(out, "ok ") {
+				c.Fail("queued-import scenario (control" + mode + "): an import on the primary was not performed once the lock was free: " + out)
+			}
+			if variant != "control" && strings.HasPrefix(out, "ok ") {
+				c.Fail("queued-import scenario (" + variant + mode + "): an import that was still waiting for the write lock when the node lost the primary role was performed: " + out)
+			}
+			if variant == "outage" {
+				do("renewerr off")
+			}
+			do("sync")
+			obs("answered")
+			do("allow 1")
+			do("sync")
+			obs("node 1 may take over")
+			cs.End()
+			c.Count("directed.queued-import." + variant)
+			c.Nontrivial("directed-queued-import-" + variant + mode + "-" + held)
+		}
 	}
 }
